@@ -8,7 +8,7 @@ THEOREMS = ["Kalign.weave", "Kalign.degap_makeLinear", "Kalign.C01_merge_integri
             "Kalign.C01_rows", "Kalign.C01_no_allgap_column", "Kalign.C01_expandPath_valid",
             # the k-means guide tree (>= 100 sequences) keeps every sequence: leaves of the tree = the samples
             "Kalign.Kmeans.split2_partition", "Kalign.Kmeans.bisectingKmeans_leaves", "Kalign.Kmeans.bisectingKmeans_fuel"]
-CHECKER = "lake build KalignModel.Props.C01 && lake env lean KalignModel/Audit/C01.lean"
+CHECKER = "lake build KalignModel.Props.Pipeline && lake env lean KalignModel/Audit/C01.lean"
 
 
 # ------------------------------------------------------------------ generators for the unit ops
@@ -226,7 +226,7 @@ def run(ctx):
                                             "every merge of every run, see C07)"]
     ctx.cov["_rule"] = ("system cases: evolved DNA/RNA/protein families (duplicates, length ratios, empty members), all types, random penalty "
                         "overrides, threads 1..16, both APIs, three formats; non-trivial = distinct (input, config) whose output has >= 3 rows and >= 1 gap")
-    ok = C.lean_obligations(ctx, "C01", THEOREMS)
+    ok = C.lean_obligations(ctx, "C01", THEOREMS + C.pipeline_theorems(["kalignRunWith_integrity", "kalignRun_integrity"]), module="Pipeline")
     kvh = C.build_harness("asan")
     # 1. unit correspondence
     lines = unit_ops(ctx, 3000 if ctx.quick else 40000)
@@ -235,6 +235,8 @@ def run(ctx):
         kops = [l for l in kops if not l.startswith("kmeans_tree")][:60] + [l for l in kops if l.startswith("kmeans_tree")][:6]
     lines += kops
     diffs = C.correspond(kvh, lines)
+    # the whole composed pipeline model against the real kalign() (the integrity theorems kalignRun_integrity* are about this function)
+    diffs += C.pipeline_correspondence(ctx, kvh, [3 * ctx.seed] if ctx.quick else [3 * ctx.seed + 30 * k for k in range(6)])
     ctx.count("unit_ops", len(lines))
     ctx.evaluations += len(lines)
     for op in lines[:3]:
